@@ -233,6 +233,12 @@ fn execute_in(bin: &Path, dir: &Path, c: &Case, case: &str) -> String {
         args.push(p.file_name().unwrap().to_string_lossy().into_owned());
     }
     args.push("out.fst".into());
+    // every third case: the destination exists already and is longer than anything built here
+    // (`--force` overwrites; what an earlier, bigger build left behind must not survive)
+    if c.seed % 3 == 0 {
+        let _ = std::fs::write(dir.join("out.fst"), vec![0xA5u8; 70_000]);
+        xcount("destination_existed_and_was_longer");
+    }
     let (code, stderr) = run_fst(bin, dir, &args, Some(c.seed));
     if code != Some(0) {
         return format!("S:EXIT {:?} {}\tM:-", code, one_line(&stderr));
@@ -300,6 +306,9 @@ fn execute_in(bin: &Path, dir: &Path, c: &Case, case: &str) -> String {
                 let sdir = dir.join("sorted");
                 std::fs::create_dir_all(&sdir).unwrap();
                 let sin = write_inputs(&sdir, &sc);
+                if c.seed % 3 == 1 {
+                    let _ = std::fs::write(sdir.join("out.fst"), vec![0x5Au8; 70_000]);
+                }
                 let sargs: Vec<String> = vec![cmdname.to_string(), "--sorted".into(), "--force".into(), sin[0].file_name().unwrap().to_string_lossy().into_owned(), "out.fst".into()];
                 let (scode, serr) = run_fst(bin, &sdir, &sargs, None);
                 if scode != Some(0) {
